@@ -268,91 +268,149 @@ theorem PInv_init : PInv Publisher.empty Spec.init where
 
 /-! ## every step preserves the invariant -/
 
+theorem okPrefix_spec (ms : List (Bytes × Bytes)) :
+    allParse (okPrefix ms) = true ∧ addedPats (okPrefix ms) = addedPats ms := by
+  induction ms with
+  | nil => simp [okPrefix, allParse, addedPats]
+  | cons m ms ih =>
+    obtain ⟨p, ig⟩ := m
+    simp only [okPrefix]
+    cases hp : parseIgnoreBytes ig with
+    | none => simp [allParse, addedPats, hp]
+    | some b => simp [allParse, addedPats, hp, ih.1, ih.2]
+
 theorem PInv_subscribe {p : Publisher} {s : Spec} (h : PInv p s) (ms : List (Bytes × Bytes)) :
     PInv (p.subscribe ms).1 (s.step (.subscribe ms)) := by
   obtain ⟨hok, htrie⟩ := addMatchesFor_spec p.trie p.nextID ms
   have hn := h.next
-  refine
-    { next := by simp [Publisher.subscribe, Spec.step, hn]
-      lt := ?_, nodup := ?_, trie := ?_, okp := ?_, live := ?_, live' := ?_, sum := ?_, gone := ?_, fresh := ?_ }
-  · intro x hx
-    simp only [Publisher.subscribe, List.mem_append, List.mem_singleton] at hx ⊢
-    rcases hx with hx | rfl
-    · have := h.lt x hx; omega
-    · simp
-  · simp only [Publisher.subscribe]
-    rw [List.pairwise_append]
-    refine ⟨h.nodup, List.pairwise_singleton _ _, ?_⟩
-    intro a ha b hb
-    simp only [List.mem_singleton] at hb
-    subst hb
-    have := h.lt a ha
-    simp only
-    omega
-  · intro q id
-    simp only [Publisher.subscribe]
-    rw [htrie q id, h.trie q id]
-    constructor
-    · rintro (⟨x, hx, hid, hq⟩ | ⟨hid, hq⟩)
-      · exact ⟨x, List.mem_append_left _ hx, hid, hq⟩
-      · exact ⟨_, List.mem_append_right _ (List.mem_singleton.mpr rfl), hid.symm, hq⟩
-    · rintro ⟨x, hx, hid, hq⟩
-      rcases List.mem_append.mp hx with hx | hx
-      · exact Or.inl ⟨x, hx, hid, hq⟩
-      · simp only [List.mem_singleton] at hx
-        subst hx
-        exact Or.inr ⟨hid.symm, hq⟩
-  · intro x hx
-    simp only [Publisher.subscribe, List.mem_append, List.mem_singleton] at hx
-    rcases hx with hx | rfl
-    · exact h.okp x hx
-    · exact hok
-  · intro x hx hxok
-    simp only [Publisher.subscribe, List.mem_append, List.mem_singleton] at hx
-    simp only [Spec.step]
-    rcases hx with hx | rfl
-    · have hlt := h.lt x hx
-      have hne : ¬ (x.id = s.nextID ∧ allParse ms = true) := by intro hc; omega
-      rw [if_neg hne]
-      exact h.live x hx hxok
-    · simp only at hxok ⊢
-      rw [hok] at hxok
-      rw [if_pos ⟨hn, hxok⟩]
-      exact ⟨rfl, (h.fresh p.nextID (Nat.le_refl _)).2.2.2⟩
-  · intro id pats hl
-    simp only [Spec.step] at hl
-    simp only [Publisher.subscribe]
-    split at hl
-    · rename_i hc
-      refine ⟨_, List.mem_append_right _ (List.mem_singleton.mpr rfl), ?_, ?_⟩
-      · simp [hc.1, hn]
-      · simp [hok, hc.2]
-    · obtain ⟨x, hx, hid, hxok⟩ := h.live' id pats hl
-      exact ⟨x, List.mem_append_left _ hx, hid, hxok⟩
-  · intro x hx hxok
-    simp only [Publisher.subscribe, List.mem_append, List.mem_singleton] at hx
-    simp only [Publisher.subscribe, Publisher.deliveredTo, Spec.step]
-    rcases hx with hx | rfl
-    · exact h.sum x hx hxok
-    · have hf := h.fresh p.nextID (Nat.le_refl _)
-      simp only [Publisher.deliveredTo] at hf
-      simp [hf.1, hf.2.1]
-  · intro id hl
-    simp only [Spec.step] at hl
-    have hl' : s.live id = none := by
+  unfold Publisher.subscribe
+  simp only
+  by_cases hall : (addMatchesFor p.trie p.nextID ms).2 = true
+  · rw [if_pos hall]
+    have hallp : allParse ms = true := by rw [← hok]; exact hall
+    refine
+      { next := by simp [Spec.step, hn]
+        lt := ?_, nodup := ?_, trie := ?_, okp := ?_, live := ?_, live' := ?_, sum := ?_, gone := ?_, fresh := ?_ }
+    · intro x hx
+      simp only [List.mem_append, List.mem_singleton] at hx ⊢
+      rcases hx with hx | rfl
+      · have := h.lt x hx; omega
+      · simp
+    · simp only
+      rw [List.pairwise_append]
+      refine ⟨h.nodup, List.pairwise_singleton _ _, ?_⟩
+      intro a ha b hb
+      simp only [List.mem_singleton] at hb
+      subst hb
+      have := h.lt a ha
+      simp only
+      omega
+    · intro q id
+      simp only
+      rw [htrie q id, h.trie q id]
+      constructor
+      · rintro (⟨x, hx, hid, hq⟩ | ⟨hid, hq⟩)
+        · exact ⟨x, List.mem_append_left _ hx, hid, hq⟩
+        · exact ⟨_, List.mem_append_right _ (List.mem_singleton.mpr rfl), hid.symm, hq⟩
+      · rintro ⟨x, hx, hid, hq⟩
+        rcases List.mem_append.mp hx with hx | hx
+        · exact Or.inl ⟨x, hx, hid, hq⟩
+        · simp only [List.mem_singleton] at hx
+          subst hx
+          exact Or.inr ⟨hid.symm, hq⟩
+    · intro x hx
+      simp only [List.mem_append, List.mem_singleton] at hx
+      rcases hx with hx | rfl
+      · exact h.okp x hx
+      · exact hallp.symm
+    · intro x hx hxok
+      simp only [List.mem_append, List.mem_singleton] at hx
+      simp only [Spec.step]
+      rcases hx with hx | rfl
+      · have hlt := h.lt x hx
+        have hne : ¬ (x.id = s.nextID ∧ allParse ms = true) := by intro hc; omega
+        rw [if_neg hne]
+        exact h.live x hx hxok
+      · simp only
+        rw [if_pos ⟨hn, hallp⟩]
+        exact ⟨rfl, (h.fresh p.nextID (Nat.le_refl _)).2.2.2⟩
+    · intro id pats hl
+      simp only [Spec.step] at hl
+      simp only
       split at hl
-      · cases hl
-      · exact hl
-    simpa [Publisher.subscribe, Publisher.deliveredTo, Spec.step] using h.gone id hl'
-  · intro id hid
-    simp only [Publisher.subscribe] at hid
-    have hf := h.fresh id (by omega)
-    simp only [Publisher.subscribe, Publisher.deliveredTo, Spec.step]
-    simp only [Publisher.deliveredTo] at hf
-    refine ⟨hf.1, hf.2.1, ?_, hf.2.2.2⟩
-    have hne : ¬ (id = s.nextID ∧ allParse ms = true) := by intro hc; omega
-    rw [if_neg hne]
-    exact hf.2.2.1
+      · rename_i hc
+        refine ⟨_, List.mem_append_right _ (List.mem_singleton.mpr rfl), ?_, rfl⟩
+        simp [hc.1, hn]
+      · obtain ⟨x, hx, hid, hxok⟩ := h.live' id pats hl
+        exact ⟨x, List.mem_append_left _ hx, hid, hxok⟩
+    · intro x hx hxok
+      simp only [List.mem_append, List.mem_singleton] at hx
+      simp only [Publisher.deliveredTo, Spec.step]
+      rcases hx with hx | rfl
+      · exact h.sum x hx hxok
+      · have hf := h.fresh p.nextID (Nat.le_refl _)
+        simp only [Publisher.deliveredTo] at hf
+        simp [hf.1, hf.2.1]
+    · intro id hl
+      simp only [Spec.step] at hl
+      have hl' : s.live id = none := by
+        split at hl
+        · cases hl
+        · exact hl
+      simpa [Publisher.deliveredTo, Spec.step] using h.gone id hl'
+    · intro id hid
+      simp only at hid
+      have hf := h.fresh id (by omega)
+      simp only [Publisher.deliveredTo, Spec.step]
+      simp only [Publisher.deliveredTo] at hf
+      refine ⟨hf.1, hf.2.1, ?_, hf.2.2.2⟩
+      have hne : ¬ (id = s.nextID ∧ allParse ms = true) := by intro hc; omega
+      rw [if_neg hne]
+      exact hf.2.2.1
+  · rw [if_neg hall]
+    have hallp : ¬ allParse ms = true := by rw [← hok]; exact hall
+    obtain ⟨hpre1, hpre2⟩ := okPrefix_spec ms
+    have hdel := delMatchesFor_spec (addMatchesFor p.trie p.nextID ms).1 p.nextID (okPrefix ms) hpre1
+    have hlive : ∀ i, (s.step (.subscribe ms)).live i = s.live i := by
+      intro i
+      simp only [Spec.step]
+      rw [if_neg (fun hc => hallp hc.2)]
+    refine
+      { next := by simp [Spec.step, hn]
+        lt := ?_, nodup := h.nodup, trie := ?_, okp := h.okp, live := ?_, live' := ?_, sum := ?_, gone := ?_, fresh := ?_ }
+    · intro x hx
+      have := h.lt x hx
+      simp only
+      omega
+    · intro q id
+      simp only
+      rw [hdel q id, htrie q id, hpre2, ← h.trie q id]
+      constructor
+      · rintro ⟨(h1 | h1), h2⟩
+        · exact h1
+        · exact absurd h1 h2
+      · intro h1
+        refine ⟨Or.inl h1, ?_⟩
+        rintro ⟨hid, _⟩
+        obtain ⟨x, hx, hxid, _⟩ := (h.trie q id).mp h1
+        have := h.lt x hx
+        omega
+    · intro x hx hxok
+      rw [hlive]
+      exact h.live x hx hxok
+    · intro id pats hl
+      rw [hlive] at hl
+      exact h.live' id pats hl
+    · intro x hx hxok
+      exact h.sum x hx hxok
+    · intro id hl
+      rw [hlive] at hl
+      exact h.gone id hl
+    · intro id hid
+      simp only at hid
+      have hf := h.fresh id (by omega)
+      refine ⟨hf.1, hf.2.1, ?_, hf.2.2.2⟩
+      rw [hlive]; exact hf.2.2.1
 
 /-- The queue update of `publishUpdates` for one subscriber. -/
 def pubSub (t : Trie) (reqs : List (List PubEntry)) (x : Sub) : Sub :=
